@@ -208,8 +208,32 @@ class Spec(object):
             while True:
                 o = cur.toordinal()
                 yield o, o, cur.hour, (cur.minute if f >= MINUTELY else None), (cur.second if f >= SECONDLY else None)
+                # Periods inside a day / hour / minute that the rule rejects as a whole are empty by definition: go straight
+                # to the first period k*interval (k integral) that starts in the next day / hour / minute.  (Pure arithmetic on
+                # the period grid; lets the reference reach the next accepted day of a SECONDLY rule within its period budget.)
+                nxt = None
+                if not s.day_ok(cur.date()):
+                    nxt = D.datetime(cur.year, cur.month, cur.day) + D.timedelta(days=1) if o < MAXORD else None
+                    if o >= MAXORD:
+                        return
+                elif f > HOURLY and s.byhour is not None and cur.hour not in s.byhour:
+                    nxt = D.datetime(cur.year, cur.month, cur.day, cur.hour)
+                    try:
+                        nxt = nxt + D.timedelta(hours=1)
+                    except OverflowError:
+                        return
+                elif f == SECONDLY and s.byminute is not None and cur.minute not in s.byminute:
+                    nxt = D.datetime(cur.year, cur.month, cur.day, cur.hour, cur.minute)
+                    try:
+                        nxt = nxt + D.timedelta(minutes=1)
+                    except OverflowError:
+                        return
+                k = 1
+                if nxt is not None:
+                    gap = int((nxt - cur).total_seconds())
+                    k = max(1, -(-gap // (unit * s.interval)))
                 try:
-                    cur = cur + step
+                    cur = cur + step * k
                 except OverflowError:
                     return
 
